@@ -46,7 +46,7 @@ open Tranp
 
 /-- Exceptions the modelled code can raise (same strings as `harness.common.exc_enum`). -/
 inductive Err where
-  | valueError | indexError | typeError | attributeError | recursionError | keyError | moduleNotFound
+  | valueError | indexError | typeError | attributeError | recursionError | keyError | moduleNotFound | notImplemented
 deriving DecidableEq, Repr
 
 def Err.toString : Err → String
@@ -57,6 +57,7 @@ def Err.toString : Err → String
   | .recursionError => "RecursionError"
   | .keyError => "KeyError"
   | .moduleNotFound => "Other:builtins.ModuleNotFoundError"
+  | .notImplemented => "NotImplementedError"
 
 /-- A symbol as written at the call site: class `origin`, possibly subscripted (`Gen[A]`). -/
 structure SymRef where
@@ -112,6 +113,8 @@ structure Factory where
   /-- identity of `__to_annotated(factory)` -/
   aid : Nat
   params : List (Option SymRef)
+  /-- the body of the factory raises (the model's stand-in: NotImplementedError) instead of returning an object -/
+  raises : Bool
 deriving DecidableEq, Repr
 
 def Factory.annotated (f : Factory) : Annotated := ⟨f.aid, f.params⟩
@@ -309,9 +312,11 @@ def assertInvoke (annos : List SymRef) (curried : List Obj) (args : List Arg) : 
   let expect := (annos.drop curried.length).map SymRef.accept
   if expect.length ≠ args.length ∨ expect.length ≠ allowCount args expect then .error .valueError else .ok ()
 
-/-- `factory(*curried_args, *remain_args)` (di.py:174): CPython's arity check, then a fresh instance -/
+/-- `factory(*curried_args, *remain_args)` (di.py:171): CPython's arity check, then the body: it raises, or returns a
+    fresh instance -/
 def call (nx : Nat) (f : Factory) (curried : List Obj) (args : List Arg) : Nat × Except Err Obj :=
   if curried.length + args.length = f.params.length then
+    if f.raises then (nx, .error .notImplemented) else
     (nx + 1, .ok ⟨nx, f.fid, curried.map (fun o => Val.inst o.id) ++ args.map (fun a => Val.ext a.id)⟩)
   else (nx, .error .typeError)
 
@@ -699,10 +704,10 @@ deriving Repr
 
 /-- `lambda: di` where `di` is container `k` (providers/app.py:18, entrypoints.py:34): a closure is a factory object
     of its own; which container it closes over is part of its identity -/
-def locatorFactory (k : Nat) : Factory := ⟨1000000 + 2 * k, 1000000 + 2 * k, []⟩
+def locatorFactory (k : Nat) : Factory := ⟨1000000 + 2 * k, 1000000 + 2 * k, [], false⟩
 
 /-- `lambda: di.invoke` where `di` is container `k` (providers/app.py:19, entrypoints.py:35) -/
-def invokerFactory (k : Nat) : Factory := ⟨1000001 + 2 * k, 1000001 + 2 * k, []⟩
+def invokerFactory (k : Nat) : Factory := ⟨1000001 + 2 * k, 1000001 + 2 * k, [], false⟩
 
 /-- `di_container(definitions)` (providers/app.py:17-20) on a heap that holds `n` containers: the new container is `n` -/
 def diContainerOps (R : Roles) (n : Nat) (defs : List (Nat × Injector)) : List Op :=
